@@ -134,7 +134,7 @@ crc_params(IMB_HASH_ALG h)
 {
         static const struct ref_crc_params p[] = {
                 { "CRC32_ETHERNET_FCS", 32, 0x04c11db7, 0xffffffff, 1, 1, 0xffffffff },
-                { "CRC32_SCTP", 32, 0x1edc6f41, 0xffffffff, 1, 1, 0xffffffff },
+                { "CRC32_SCTP", 32, 0x1edc6f41, 0, 0, 0, 0 }, /* polynomial from RFC 3309; bit order/init: see DESIGN.md */
                 { "CRC32_WIMAX_OFDMA_DATA", 32, 0x04c11db7, 0xffffffff, 0, 0, 0xffffffff },
                 { "CRC24_LTE_A", 24, 0x864cfb, 0, 0, 0, 0 },
                 { "CRC24_LTE_B", 24, 0x800063, 0, 0, 0, 0 },
@@ -793,6 +793,8 @@ item_gen(struct item *it, const struct suite *cs, const struct suite *hs, struct
                 /* 128-EEA2 defines a 64-bit counter, generic CTR a 32-bit one: classes 4 and 5 (wrap of
                  * the low 32 bits) are only applied where the specification is unambiguous */
                 iv_class_apply(it, r, (it->cipher == IMB_CIPHER_CNTR_BITLEN && g->iv_class > 3) ? 3 : g->iv_class);
+                if (it->cipher == IMB_CIPHER_CNTR_BITLEN)
+                        it->iv[12] &= 0x7f; /* never wrap the low 32 bits (see above) */
         }
         /* ---------------- hash geometry */
         if (hs || aead) {
@@ -1577,6 +1579,22 @@ item_describe(const struct item *it)
         return b;
 }
 
+/* geometry classes that distinguish known corner-case findings from everything else */
+static const char *
+item_geom_class(const struct item *it)
+{
+        static __thread char b[64];
+        b[0] = 0;
+        if (it->cipher == IMB_CIPHER_DOCSIS_SEC_BPI && it->hash == IMB_AUTH_DOCSIS_CRC32) {
+                uint32_t rel = it->c_off - it->h_off;
+                snprintf(b, sizeof b, "|%s|%s|%s", it->h_len + 4 >= 32768 ? "frame>=32768" : "frame<32768",
+                         rel == 12 ? "c12" : (rel + 16 <= it->h_len ? "cmid" : "ctail"),
+                         it->c_len < 16 ? "clen<16" : "clen>=16");
+        } else if (it->c_len > 65534 || it->h_len > 65534)
+                snprintf(b, sizeof b, "|len>65534");
+        return b;
+}
+
 static long
 first_diff(const uint8_t *a, const uint8_t *b, size_t n)
 {
@@ -1615,8 +1633,8 @@ item_check(struct item *it, const IMB_JOB *job, const char *prop, struct mmgr *m
                                 d = -1;
                 }
                 if (d >= 0) {
-                        snprintf(key, sizeof key, "%s|%s|%s-%u|dir%d|dst", prop, v, sname, it->keylen * 8,
-                                 it->dir);
+                        snprintf(key, sizeof key, "%s|%s|%s-%u|dir%d|dst%s", prop, v, sname, it->keylen * 8,
+                                 it->dir, item_geom_class(it));
                         snprintf(det, sizeof det,
                                  "%s: destination differs from reference at byte %ld of %u (got %02x expected "
                                  "%02x), len%%16=%u",
@@ -1628,7 +1646,8 @@ item_check(struct item *it, const IMB_JOB *job, const char *prop, struct mmgr *m
         if (it->tag_len) {
                 long d = first_diff(it->tag, it->exp_tag, it->tag_len);
                 if (d >= 0) {
-                        snprintf(key, sizeof key, "%s|%s|%s|tag", prop, v, hash_name(it->hash));
+                        snprintf(key, sizeof key, "%s|%s|%s|tag%s", prop, v, hash_name(it->hash),
+                                 item_geom_class(it));
                         snprintf(det, sizeof det,
                                  "%s: tag differs from reference at byte %ld of %u: got %s expected %s", ctx,
                                  d, it->tag_len, hexs(it->tag, it->tag_len), hexs(it->exp_tag, it->tag_len));
